@@ -20,13 +20,15 @@ RULE = ('Generated budget directories: 1-4 transaction sources with independent 
         'missing, binary garbage or a directory. `tally up` is run in-process (JSON -v, HTML report decoded with html.parser+json, '
         'non-quiet summary) and on a fresh-subprocess sample. Oracle (glue validation): transactions, per-merchant counts/totals, the '
         'six flow totals and view membership must equal the composition parse_generic_csv -> analyze_transactions -> '
-        'classify_by_sections computed by the harness directly from ITS OWN generated settings (never through load_config/cmd_run); '
+        'classify_by_sections computed by the harness directly from ITS OWN generated settings (never through load_config/cmd_run); every '
+        'file must yield the transactions its rows yield when read one at a time (its own description, amount, date, captures, '
+        'location - files contain repeated charges differing only in extra columns, and rules deciding on those columns); '
         'metamorphic: deleting one source file or editing one source changes only that source\'s transactions, and a missing/unreadable '
         'source is named in the non-quiet output. Non-trivial = >=2 sources with different settings and >=1 categorised transaction '
         'and one of {transform, most_specific, supplemental query, decimal comma, non-comma delimiter, views}.')
 ASSUMPTIONS = ['component correctness (parse/classify/total/views) is decided by C01-C10; C11 decides that every setting reaches its component',
                'the in-process driver is re-confirmed on a fresh-subprocess sample per run']
-REQUIRED_CLASSES = ['duplicate_source_name', 'same_format_different_settings', 'source_missing_or_unreadable', 'supplemental', 'views', 'csv_rules', 'most_specific', 'decimal_comma', 'subprocess_sample']
+REQUIRED_CLASSES = ['repeated_charge_distinct_columns', 'duplicate_source_name', 'same_format_different_settings', 'source_missing_or_unreadable', 'supplemental', 'views', 'csv_rules', 'most_specific', 'decimal_comma', 'subprocess_sample']
 
 case_st = st.fixed_dictionaries({'b': B.budget(), 'drop': st.integers(0, 3), 'sub': st.integers(0, 39)})
 
@@ -68,6 +70,10 @@ def run_up(bd, runner, case):
 
 def observe(b, bd, mat, case, runner=cli.run, label='in-process'):
     comp = B.compose(b, mat)
+    if comp['row_mismatch']:
+        rm = comp['row_mismatch']
+        raise Violation(f'a row of source {rm["source"]!r} is not classified from its own columns:\n  as read from the file: {rm["in_file"]}\n  the same row read '
+                        f'alone with the same rules and settings: {rm["alone"]}', case, 'row-classification')
     r_json, r_html = run_up(bd, runner, case)
     settings_text = open(bd.path('config/settings.yaml')).read()
     ctx = f'\n--- settings.yaml\n{settings_text}\n--- rules: {b["rules_kind"]}'
@@ -161,6 +167,13 @@ def check(case, stats: Stats):
             fmts.setdefault(s['format'], []).append({k: s.get(k) for k in ('delimiter', 'has_header', 'negate_amount', 'decimal_separator')})
         if any(len(v) >= 2 and len({json.dumps(x, sort_keys=True) for x in v}) >= 2 for v in fmts.values()):
             classes.add('same_format_different_settings')
+        for s_ in b['sources']:
+            seen = {}
+            for r in s_['rows']:
+                if r['kind'] == 'good':
+                    seen.setdefault((r['desc'], r['cents'], r['date'], r['style'] == r['style']), set()).add(json.dumps([r['customs'], r['loc']], sort_keys=True))
+            if s_['state'] == 'ok' and any(len(v) > 1 for v in seen.values()):
+                classes.add('repeated_charge_distinct_columns')
         if b['supplemental']:
             classes.add('supplemental')
         if b['views'] not in (None, 'corrupt'):
